@@ -84,6 +84,7 @@ let rec gtype_of (x : sexp) : gtype =
   match x with
   | L [A "nn"; t] -> GNonNull (gtype_of t)
   | L [A "l"; t] -> GList (gtype_of t)
+  | L [A "ents"; L names; t] -> GEntities (List.map (fun n -> b (str n)) names, gtype_of t)
   | L [A "sc"; A n] -> GScalar (b n)
   | L (A "en" :: vs) -> GEnum (List.map (fun v -> b (str v)) vs)
   | L [A "tn"] -> GTypename
@@ -112,6 +113,16 @@ let rec diagnose (path : string) (t : sexp) (j : json) : string option =
     let rec go i = function [] -> None | x :: r -> (match diagnose (path ^ "[" ^ string_of_int i ^ "]") t' x with Some d -> Some d | None -> go (i + 1) r) in
     go 0 items
   | L [A "l"; _], _ -> Some (path ^ " why=not-a-list")
+  | L [A "ents"; L names; t'], JArr items ->
+    if List.length names <> List.length items then Some (path ^ " why=entity-count") else
+    let rec go i ns is = (match ns, is with
+        | S n :: ns', x :: is' ->
+          let tn = (match x with JObj m -> (try (match List.assoc (bytes_of_string "__typename") m with JStr s -> string_of_bytes s | _ -> "?") with Not_found -> "?") | _ -> "?") in
+          if tn <> n then Some (path ^ "[" ^ string_of_int i ^ "] why=entity-order:expected=" ^ n ^ ",got=" ^ tn)
+          else (match diagnose (path ^ "[" ^ string_of_int i ^ "]") t' x with Some d -> Some d | None -> go (i + 1) ns' is')
+        | _ -> None) in
+    go 0 names items
+  | L [A "ents"; _; _], _ -> Some (path ^ " why=not-a-list")
   | L [A "ob"; L (A "sel" :: variants)], JObj members
   | L (A "sel" :: variants), JObj members ->
     let keys = List.map (fun (k, _) -> string_of_bytes k) members in
@@ -190,6 +201,22 @@ let show_err = function
   | ENotFound -> "ENotFound" | EExpected -> "EExpected" | ELenMismatch -> "ELenMismatch" | EEntityCount -> "EEntityCount"
   | EPanic -> "EPanic"
 
+(* the wording json_builder.go / astjson use for the model's error classes *)
+let err_text = function
+  | EOneofMissing | EOneofUnset -> ["unable to build response JSON: oneof"]
+  | EListMeta -> ["list metadata not found"] | EListLevels -> ["nesting level data does not match"]
+  | ENonNullList -> ["cannot add null item to response for non nullable list"]
+  | EFieldNum1 -> ["field with number"] | ENotMessage -> ["is not a message"] | ENotList -> ["is not a list"]
+  | EOptionalValue -> ["unable to resolve optional field"]
+  | EMergeTypes -> ["cannot merge different types"] | EMergeLen -> ["cannot merge arrays of differing lengths"]
+  | EPathEmpty -> ["path is empty"] | ENotFound -> ["not found in object"] | EExpected -> ["expected array or object"]
+  | ELenMismatch -> ["length of values doesn't match"]
+  | EEntityCount -> ["entities in the subgraph response"; "validateEntityResponse"]
+  | EPanic -> ["panic"]
+let contains (s : string) (sub : string) : bool =
+  let n = String.length s and m = String.length sub in
+  let rec go i = i + m <= n && (String.sub s i m = sub || go (i + 1)) in go 0
+
 let clip n s = if String.length s > n then String.sub s 0 n ^ "..." else s
 
 let jdata (j : json) : json option =
@@ -209,7 +236,9 @@ type runinfo = { label : string; q : string; shape : gtype option; data : json o
 
 let handle (x : sexp) : (string * string) list =
   match x with
-  | L [A "c20"; nt; enums; L (A "resps" :: resps); L (A "runs" :: runs); _ops] ->
+  | L [A (("c20" | "c20m") as kind); nt; enums; L (A "resps" :: resps); L (A "runs" :: runs); _ops] ->
+    (* c20m: the service's answers were perturbed; S1 is not applicable (absence is the service's data) *)
+    let check_s1 = (kind = "c20") in
     let em = enums_of enums in
     let resp_tbl = Hashtbl.create 16 in
     List.iter (function
@@ -278,7 +307,12 @@ let handle (x : sexp) : (string * string) list =
                  | Ok mj, None ->
                    if not (json_eqb mj j) then
                      add "mismatch" (Printf.sprintf "corr:C20/build impl=%s model=%s%s" (clip 700 (show_json j)) (clip 700 (show_json mj)) ctx)
-                 | Err e, Some _ -> ignore e
+                 | Err e, Some m ->
+                   (* Load marshals the calls of a batch concurrently and reports whichever error comes
+                      first, before merging; the model merges call by call: accept any call's marshal error *)
+                   let es = e :: List.filter_map (fun c -> match marshal em c.c_plan c.c_resp with Err x -> Some x | Ok _ -> None) cs in
+                   if not svcerr && not (List.exists (fun x -> List.exists (contains m) (err_text x)) es) then
+                     add "mismatch" (Printf.sprintf "corr:C20/build impl=errors(%s) model=Err %s%s" (clip 200 m) (show_err e) ctx)
                  | Ok mj, Some m ->
                    if not svcerr then add "mismatch" (Printf.sprintf "corr:C20/build impl=errors(%s) model=%s%s" (clip 200 m) (clip 500 (show_json mj)) ctx)
                  | Err e, None ->
@@ -286,12 +320,12 @@ let handle (x : sexp) : (string * string) list =
              (* S1 on the implementation's output *)
              (match errs with
               | Some m ->
-                if not svcerr then add "specfail" ("shape/errors msg=" ^ quote_string (clip 200 m) ^ ctx);
+                if check_s1 && not svcerr then add "specfail" ("shape/errors msg=" ^ quote_string (clip 200 m) ^ ctx);
                 info
               | None ->
                 (match jdata j, shape with
                  | Some d, Some sh ->
-                   if not (conf_b sh d) then
+                   if check_s1 && not (conf_b sh d) then
                      add "specfail" (Printf.sprintf "shape/mismatch at=%s out=%s%s"
                                        (match shape_sx with Some s -> (match diagnose "$" s d with Some x -> x | None -> "? why=?") | None -> "?")
                                        (clip 900 (show_json d)) ctx);
